@@ -261,7 +261,12 @@ func VX_C05_distinct() {
 	for row := 0; row < s.n && row < len(s.f.index); row++ {
 		vx.Check(s.f.index[row] == s.ix[row], "source frame keeps its rows after Distinct")
 	}
-	if vx.ParamStr("cols") != "all" {
+	again := vx.ParamStr("cols") != "all"
+	for _, k := range s.keys {
+		// float keys with Null(false): every NaN draws a fresh random hash, a second call squares the paths
+		again = again && !(k.typ == "float" && !s.nullEq)
+	}
+	if again {
 		r2 := s.f.Distinct(s.cfg()...)
 		vx.Check(len(r2.index) == len(out) && len(r.index) == len(out), "a second Distinct keeps as many rows")
 		for j := range out {
